@@ -111,66 +111,73 @@ Section Sim.
       (apply oq_bind; [exact Hb|]); intros y y' Hy; cbn [oq_equiv]; rewrite !Qred_correct, Hx, Hy; reflexivity.
   Qed.
 
-  (* the core step, effect statement placed right after the parameter's last assignment *)
-  Lemma core_ungrouped F pre post P EFF o tmpl docc r1 r2 :
-    agree_off F r1 r2 -> In EFF F -> ~ In P F ->
-    Forall (reads_none F) pre -> Forall (reads_none F) post ->
-    (forall x, In x F -> ~ In x (flat_map defs pre)) ->
-    (forall ra rb, agree_off F ra rb -> (forall x, In x F -> ra x = r1 x) ->
+  Lemma agree_off_weaken F G r r' : (forall x, In x F -> In x G) -> agree_off F r r' -> agree_off G r r'.
+  Proof. intros HS H x Hx. apply H. intro Hin. apply Hx, HS, Hin. Qed.
+
+  (* the core step, effect statement placed right after the parameter's last assignment.  Fs: the statistic
+     symbols (fresh); EFF: the effect symbol, which the statements before the insertion point may assign and read
+     (nested effect of the same covariate) *)
+  Lemma core_ungrouped Fs pre post P EFF o tmpl docc r1 r2 :
+    agree_off Fs r1 r2 -> ~ In P (EFF :: Fs) ->
+    Forall (reads_none Fs) pre -> Forall (reads_none (EFF :: Fs)) post ->
+    (forall x, In x Fs -> ~ In x (flat_map defs pre)) ->
+    (forall ra rb, agree_off Fs ra rb -> (forall x, In x Fs -> ra x = r1 x) ->
                    oq_equiv (eval ra fi tmpl) (eval rb fi docc)) ->
-    agree_off F (exec fi ode r1 (pre ++ [Assign EFF tmpl; Assign P (apply_op o (Sym P) (Sym EFF))] ++ post))
-                (exec fi ode r2 (pre ++ [Assign P (apply_op o (Sym P) docc)] ++ post)).
+    agree_off (EFF :: Fs)
+              (exec fi ode r1 (pre ++ [Assign EFF tmpl; Assign P (apply_op o (Sym P) (Sym EFF))] ++ post))
+              (exec fi ode r2 (pre ++ [Assign P (apply_op o (Sym P) docc)] ++ post)).
   Proof.
-    intros H HE HP Hpre Hpost Hdef Ht.
+    intros H HP Hpre Hpost Hdef Ht.
     rewrite !exec_app. apply exec_agree; [|exact Hpost].
     set (ra := exec fi ode r1 pre). set (rb := exec fi ode r2 pre).
-    assert (Hab : agree_off F ra rb) by (apply exec_agree; assumption).
-    assert (Hkeep : forall x, In x F -> ra x = r1 x) by (intros x Hx; apply exec_not_defined, Hdef, Hx).
+    assert (Hab : agree_off Fs ra rb) by (apply exec_agree; assumption).
+    assert (Hkeep : forall x, In x Fs -> ra x = r1 x) by (intros x Hx; apply exec_not_defined, Hdef, Hx).
     cbn [exec exec1].
-    assert (NE : Pos.eqb P EFF = false) by (apply Pos.eqb_neq; intro E; subst; contradiction).
+    assert (NE : Pos.eqb P EFF = false) by (apply Pos.eqb_neq; intro E; subst; apply HP; left; reflexivity).
+    assert (HPs : ~ In P Fs) by (intro Hin; apply HP; right; exact Hin).
     intros x Hx. unfold upd.
     destruct (Pos.eqb x P) eqn:Ex.
     - apply eval_apply_op.
-      + cbn [eval]. rewrite NE. apply Hab, HP.
+      + cbn [eval]. rewrite NE. apply Hab, HPs.
       + cbn [eval]. rewrite Pos.eqb_refl. apply Ht; assumption.
     - destruct (Pos.eqb x EFF) eqn:Ee.
-      + apply Pos.eqb_eq in Ee. subst. contradiction.
-      + apply Hab, Hx.
+      + apply Pos.eqb_eq in Ee. subst. exfalso. apply Hx. left; reflexivity.
+      + apply Hab. intro Hin. apply Hx. right; exact Hin.
   Qed.
 
   (* the grouped variant: the last assignment P = e is merged into P = e op EFFECT *)
-  Lemma core_grouped F pre post P EFF o tmpl docc last_e r1 r2 :
-    agree_off F r1 r2 -> In EFF F -> ~ In P F ->
-    Forall (reads_none F) pre -> Forall (reads_none F) post -> reads_none F (Assign P last_e) ->
-    (forall x, In x F -> ~ In x (flat_map defs pre)) ->
+  Lemma core_grouped Fs pre post P EFF o tmpl docc last_e r1 r2 :
+    agree_off Fs r1 r2 -> ~ In P (EFF :: Fs) ->
+    Forall (reads_none Fs) pre -> Forall (reads_none (EFF :: Fs)) post -> reads_none (EFF :: Fs) (Assign P last_e) ->
+    (forall x, In x Fs -> ~ In x (flat_map defs pre)) ->
     ~ In P (free_syms docc) ->
-    (forall ra rb, agree_off F ra rb -> (forall x, In x F -> ra x = r1 x) ->
+    (forall ra rb, agree_off Fs ra rb -> (forall x, In x Fs -> ra x = r1 x) ->
                    oq_equiv (eval ra fi tmpl) (eval rb fi docc)) ->
-    agree_off F (exec fi ode r1 (pre ++ [Assign EFF tmpl; Assign P (apply_op o last_e (Sym EFF))] ++ post))
-                (exec fi ode r2 (pre ++ [Assign P last_e; Assign P (apply_op o (Sym P) docc)] ++ post)).
+    agree_off (EFF :: Fs)
+              (exec fi ode r1 (pre ++ [Assign EFF tmpl; Assign P (apply_op o last_e (Sym EFF))] ++ post))
+              (exec fi ode r2 (pre ++ [Assign P last_e; Assign P (apply_op o (Sym P) docc)] ++ post)).
   Proof.
-    intros H HE HP Hpre Hpost Hlast Hdef HPd Ht.
+    intros H HP Hpre Hpost Hlast Hdef HPd Ht.
     rewrite !exec_app. apply exec_agree; [|exact Hpost].
     set (ra := exec fi ode r1 pre). set (rb := exec fi ode r2 pre).
-    assert (Hab : agree_off F ra rb) by (apply exec_agree; assumption).
-    assert (Hkeep : forall x, In x F -> ra x = r1 x) by (intros x Hx; apply exec_not_defined, Hdef, Hx).
+    assert (Hab : agree_off Fs ra rb) by (apply exec_agree; assumption).
+    assert (Hkeep : forall x, In x Fs -> ra x = r1 x) by (intros x Hx; apply exec_not_defined, Hdef, Hx).
     cbn [exec exec1].
-    assert (NE : Pos.eqb P EFF = false) by (apply Pos.eqb_neq; intro E; subst; contradiction).
     intros x Hx. unfold upd.
     destruct (Pos.eqb x P) eqn:Ex.
     - apply eval_apply_op.
       + (* last_e under the model env (EFF updated) vs P in the spec env *)
         cbn [eval]. rewrite Pos.eqb_refl.
         apply eval_equiv_on. intros y Hy. destruct (Pos.eqb y EFF) eqn:Ey.
-        * apply Pos.eqb_eq in Ey. subst. exfalso. apply (Hlast EFF HE). exact Hy.
-        * apply Hab. intro Hin. apply (Hlast y Hin). exact Hy.
+        * apply Pos.eqb_eq in Ey. subst. exfalso. apply (Hlast EFF (or_introl eq_refl)). exact Hy.
+        * apply Hab. intro Hin. apply (Hlast y (or_intror Hin)). exact Hy.
       + cbn [eval]. rewrite Pos.eqb_refl.
         eapply oq_trans; [apply (Ht ra rb Hab Hkeep)|].
         apply eval_equiv_on. intros y Hy. destruct (Pos.eqb y P) eqn:Ey; [|apply oq_refl].
         apply Pos.eqb_eq in Ey. subst. contradiction.
     - destruct (Pos.eqb x EFF) eqn:Ee.
-      + apply Pos.eqb_eq in Ee. subst. contradiction.
-      + apply Hab, Hx.
+      + apply Pos.eqb_eq in Ee. subst. exfalso. apply Hx. left; reflexivity.
+      + apply Hab. intro Hin. apply Hx. right; exact Hin.
   Qed.
 End Sim.
 
@@ -426,11 +433,22 @@ Section Surgery.
     intros H. apply exec_replace; auto. cbn [exec1]. apply env_equiv_upd; [apply env_equiv_refl | apply H, Hp].
   Qed.
 
+  Lemma all_args_in_nil e : all_args_in e [] = false.
+  Proof.
+    unfold all_args_in. destruct (sym_args e) as [[|x tl]|]; try reflexivity.
+    cbn [forallb]. destruct x; reflexivity.
+  Qed.
+
   Theorem add_covariate_effect_sound_lemma T a l lm ls r :
     templates_equiv T doc_templates ->
     let F := fresh_names a in
+    let Fs := stat_names (a_stats a) in
     let e0D := effect_expr doc_templates (a_kind a) (a_cats a) (a_mc a) in
-    (forall x, In x F -> ~ In x (flat_map defs l) /\ ~ In x (flat_map rhs l)) ->
+    (forall x, In x Fs -> ~ In x (flat_map defs l) /\ ~ In x (flat_map rhs l)) ->
+    ~ In (a_effect a) Fs ->
+    (forall i, find_assignment_index l (a_param a) = Some i ->
+       ~ In (a_effect a) (flat_map rhs (skipn (Datatypes.S i) l)) /\
+       (existsb (is_assign_of (a_effect a)) l = true \/ ~ In (a_effect a) (rhs (nths l i)))) ->
     ~ In (a_param a) F ->
     NoDup (stat_names (a_stats a)) ->
     (forall nm, In nm (stat_names (a_stats a)) -> ~ In nm (stat_keys (a_stats a))) ->
@@ -444,53 +462,65 @@ Section Surgery.
     spec_covariate_effect a l = Some ls ->
     agree_off F (exec fi ode r lm) (exec fi ode r ls).
   Proof.
-    intros HT F e0D H1 H2 H3 H4 H5 H5' H6 H7 H8 H9 H10 Hm Hs.
+    intros HT F Fs e0D H1 HEs HE H2 H3 H4 H5 H5' H6 H7 H8 H9 H10 Hm Hs.
     set (P := a_param a) in *. set (EFF := a_effect a) in *.
     unfold spec_covariate_effect in Hs. fold P in Hs.
     destruct (find_assignment_index l P) as [i|] eqn:Ei; [|discriminate]. injection Hs as <-.
+    destruct (HE i eq_refl) as [HEpost HElast]. clear HE.
     destruct (find_index_split l P i Ei) as [last_e [Hl [Hn [_ Hi]]]].
     unfold add_covariate_effect in Hm. fold P EFF in Hm.
     set (S := statistic_statements T a) in *.
-    assert (HSform : forall st, In st S -> exists nm v, st = Assign nm (Num v) /\ In nm (stat_names (a_stats a)))
+    assert (HSform : forall st, In st S -> exists nm v, st = Assign nm (Num v) /\ In nm Fs)
       by apply statistic_statements_form.
-    assert (HnamesF : forall nm, In nm (stat_names (a_stats a)) -> In nm F) by (intros nm Hn'; right; exact Hn').
+    assert (HnamesF : forall nm, In nm Fs -> In nm F) by (intros nm Hn'; right; exact Hn').
     rewrite filter_fresh_stats in Hm.
     2:{ intros st Hst. destruct (HSform st Hst) as [nm [v [-> Hin]]]. exists nm, (Num v). split; [reflexivity|].
-        apply (H1 nm (HnamesF nm Hin)). }
+        apply (H1 nm Hin). }
     assert (HSP : forall st, In st S -> is_assign_of P st = false).
     { intros st Hst. destruct (HSform st Hst) as [nm [v [-> Hin]]]. cbn. apply Pos.eqb_neq. intro E. subst nm.
       apply H2, HnamesF, Hin. }
-    rewrite (find_index_prefix P S l HSP), Ei in Hm. cbn [option_map] in Hm.
-    unfold nths in Hm, Hn. rewrite nth_prefix, Hn in Hm.
+    assert (HSE : existsb (is_assign_of EFF) (S ++ l) = existsb (is_assign_of EFF) l).
+    { rewrite existsb_app. replace (existsb (is_assign_of EFF) S) with false; [reflexivity|].
+      symmetry. destruct (existsb (is_assign_of EFF) S) eqn:Ex; [|reflexivity].
+      apply existsb_exists in Ex. destruct Ex as [st [Hst Heq]]. destruct (HSform st Hst) as [nm [v [-> Hin]]].
+      cbn in Heq. apply Pos.eqb_eq in Heq. subst nm. contradiction. }
+    rewrite (find_index_prefix P S l HSP), Ei in Hm. cbn [option_map] in Hm. rewrite HSE in Hm.
+    unfold nths in Hm, Hn, HElast. rewrite nth_prefix, Hn in Hm. rewrite Hn in HElast. cbn [rhs] in HElast.
     (* the environment after the statistic statements *)
     set (r1 := exec fi ode r S).
-    assert (Hr1 : agree_off F r1 r).
+    assert (Hr1 : agree_off Fs r1 r).
     { intros x Hx. unfold r1. rewrite exec_not_defined; [apply oq_refl|].
-      intro Hin. apply Hx, HnamesF, (statistic_statements_defs T a x Hin). }
-    assert (Hreads : forall st, In st l -> reads_none F st).
+      intro Hin. apply Hx, (statistic_statements_defs T a x Hin). }
+    assert (HreadsS : forall st, In st l -> reads_none Fs st).
     { intros st Hst x Hx Hin. apply (proj2 (H1 x Hx)). apply in_flat_map. exists st. split; assumption. }
     assert (Hsub1 : forall st, In st (firstn i l) -> In st l)
       by (intros st Hst; rewrite Hl; apply in_or_app; left; exact Hst).
     assert (Hsub2 : forall st, In st (skipn (Datatypes.S i) l) -> In st l)
       by (intros st Hst; rewrite Hl; apply in_or_app; right; right; exact Hst).
-    assert (Hpost : Forall (reads_none F) (skipn (Datatypes.S i) l))
-      by (apply Forall_forall; intros st Hst; apply Hreads, Hsub2, Hst).
-    assert (Hpre : Forall (reads_none F) (firstn i l))
-      by (apply Forall_forall; intros st Hst; apply Hreads, Hsub1, Hst).
+    assert (Hpost : Forall (reads_none (EFF :: Fs)) (skipn (Datatypes.S i) l)).
+    { apply Forall_forall. intros st Hst x [<-|Hx] Hin.
+      - apply HEpost. apply in_flat_map. exists st. split; assumption.
+      - apply (HreadsS st (Hsub2 st Hst) x Hx Hin). }
+    assert (Hpre : Forall (reads_none Fs) (firstn i l))
+      by (apply Forall_forall; intros st Hst; apply HreadsS, Hsub1, Hst).
     assert (HlastIn : In (Assign P last_e) l) by (rewrite Hl; apply in_or_app; right; left; reflexivity).
-    assert (Hdefs : forall st, In st l -> forall x, In x F -> ~ In x (defs st)).
+    assert (Hdefs : forall st, In st l -> forall x, In x Fs -> ~ In x (defs st)).
     { intros st Hst x Hx Hin. apply (proj1 (H1 x Hx)). apply in_flat_map. exists st. split; assumption. }
-    assert (HEF : In EFF F) by (left; reflexivity).
+    assert (HPF : ~ In P (EFF :: Fs)) by exact H2.
     (* the template/documented-effect relation at the insertion point *)
-    assert (Ht : forall ra rb, agree_off F ra rb -> (forall x, In x F -> ra x = r1 x) ->
+    assert (Ht : forall ra rb, agree_off Fs ra rb -> (forall x, In x Fs -> ra x = r1 x) ->
                    oq_equiv (eval ra fi (applied_template T a)) (eval rb fi (doc_effect_closed a))).
     { intros ra rb Hab Hkeep. rewrite eval_applied_template, eval_doc_effect_closed.
       eapply oq_trans; [apply (effect_expr_equiv T _ _ _ HT); exact Hp|]. fold e0D.
       apply (eval_equiv_on fi Hp). intros x Hx.
-      apply (inst_envs_agree fi F a ra rb x); auto.
-      - intros st Hst Ek. rewrite Hkeep by (apply HnamesF, in_map_iff; exists st; split; [reflexivity | exact Hst]).
+      apply (inst_envs_agree fi Fs a ra rb x); [exact Hab | | exact H4 | | exact H5' | | | ].
+      - intros st Hst Ek. rewrite Hkeep by (apply in_map_iff; exists st; split; [reflexivity | exact Hst]).
         unfold r1. apply exec_statistics; auto. apply H9; [exact Hst | rewrite Ek; exact Hx].
-      - intro Hin. apply (H8 x Hin Hx). }
+      - intro Hin. apply H5, HnamesF, Hin.
+      - intros p Hpn. destruct (H6 p Hpn) as [A [B C]].
+        split; [intro Hin; apply A, HnamesF, Hin | split; [exact B | exact C]].
+      - intros y Hy. apply H7, HnamesF, Hy.
+      - intro Hin. apply (H8 x (HnamesF x Hin) Hx). }
     assert (Hrhs : expr_equiv (subs_map [(s_p, Sym P); (s_effect, Sym EFF)] (t_effect_rhs T (a_op a)))
                               (apply_op (a_op a) (Sym P) (Sym EFF))).
     { eapply expr_equiv_trans; [apply expr_equiv_subs_map, (te_effect_rhs _ _ HT)|].
@@ -499,9 +529,15 @@ Section Surgery.
     { rewrite <- Hn. clear -Hi. revert i Hi. induction l as [|x tl IH]; intros i Hi; [cbn in Hi; lia|].
       destruct i; cbn [firstn nth app]; [reflexivity|]. f_equal. apply IH. cbn [length] in Hi. lia. }
     assert (NE : Pos.eqb EFF P = false).
-    { apply Pos.eqb_neq. intro E. apply H2. rewrite <- E. exact HEF. }
-    destruct (all_args_in last_e (a_cov_possible a)); injection Hm as <-.
-    - (* grouped: the last assignment is merged with the effect statement *)
+    { apply Pos.eqb_neq. intro E. apply H2. rewrite <- E. left; reflexivity. }
+    assert (Hdp : forall x, In x Fs -> ~ In x (flat_map defs (firstn i l))).
+    { intros x Hx Hin. apply in_flat_map in Hin. destruct Hin as [st [Hst Hd]].
+      apply (Hdefs st (Hsub1 st Hst) x Hx Hd). }
+    destruct (all_args_in last_e (if existsb (is_assign_of EFF) l then [] else a_cov_possible a)) eqn:Eg;
+      injection Hm as <-.
+    - (* grouped: the last assignment is merged with the effect statement (the effect symbol is not assigned) *)
+      destruct (existsb (is_assign_of EFF) l) eqn:Eas; [rewrite all_args_in_nil in Eg; discriminate|].
+      assert (HElast' : ~ In EFF (free_syms last_e)) by (destruct HElast as [Hc|Hc]; [discriminate | exact Hc]).
       change (match l with [] => [] | a0 :: l0 => a0 :: firstn i l0 end) with (firstn (Datatypes.S i) l).
       change (match l with [] => [] | _ :: l0 => skipn i l0 end) with (skipn (Datatypes.S i) l).
       change (match S ++ l with [] => [] | _ :: l0 => skipn (i + length S) l0 end)
@@ -509,9 +545,7 @@ Section Surgery.
       rewrite firstn_prefix, skipn_prefix. rewrite <- app_assoc, exec_app. fold r1.
       rewrite Hfs, <- app_assoc. cbn [app].
       eapply agree_off_env_l.
-      + change (firstn i l ++ Assign EFF (applied_template T a) :: ?x :: ?y)
-          with (firstn i l ++ Assign EFF (applied_template T a) :: x :: y).
-        replace (firstn i l ++ Assign EFF (applied_template T a)
+      + replace (firstn i l ++ Assign EFF (applied_template T a)
                    :: Assign P (subs P last_e (subs_map [(s_p, Sym P); (s_effect, Sym EFF)] (t_effect_rhs T (a_op a))))
                    :: skipn (Datatypes.S i) l)
           with ((firstn i l ++ [Assign EFF (applied_template T a)])
@@ -521,12 +555,11 @@ Section Surgery.
         eapply expr_equiv_trans; [apply expr_equiv_subs, Hrhs|].
         destruct (a_op a); cbn [apply_op subs]; rewrite Pos.eqb_refl, NE; apply expr_equiv_refl.
       + rewrite <- app_assoc. cbn [app].
-        assert (Hdp : forall x, In x F -> ~ In x (flat_map defs (firstn i l))).
-        { intros x Hx Hin. apply in_flat_map in Hin. destruct Hin as [st [Hst Hd]].
-          apply (Hdefs st (Hsub1 st Hst) x Hx Hd). }
-        exact (core_grouped fi Hp ode Hode F (firstn i l) (skipn (Datatypes.S i) l) P EFF (a_op a)
+        assert (Hlr : reads_none (EFF :: Fs) (Assign P last_e)).
+        { intros x [<-|Hx] Hin; [apply HElast'; exact Hin | apply (HreadsS _ HlastIn x Hx Hin)]. }
+        exact (core_grouped fi Hp ode Hode Fs (firstn i l) (skipn (Datatypes.S i) l) P EFF (a_op a)
                  (applied_template T a) (doc_effect_closed a) last_e r1 r
-                 Hr1 HEF H2 Hpre Hpost (Hreads _ HlastIn) Hdp H10 Ht).
+                 Hr1 HPF Hpre Hpost Hlr Hdp H10 Ht).
     - (* not grouped: the effect statement follows the last assignment *)
       change (match l with [] => [] | a0 :: l0 => a0 :: firstn i l0 end) with (firstn (Datatypes.S i) l).
       change (match l with [] => [] | _ :: l0 => skipn i l0 end) with (skipn (Datatypes.S i) l).
@@ -544,14 +577,14 @@ Section Surgery.
                   :: skipn (Datatypes.S i) l) by (rewrite <- app_assoc; reflexivity).
         apply (exec_replace_equiv _ _ P _ (apply_op (a_op a) (Sym P) (Sym EFF))). exact Hrhs.
       + rewrite <- app_assoc. cbn [app].
-        assert (Hpre' : Forall (reads_none F) (firstn (Datatypes.S i) l)).
-        { rewrite Hfs. apply Forall_app. split; [exact Hpre|]. constructor; [apply Hreads, HlastIn | constructor]. }
-        assert (Hdp : forall x, In x F -> ~ In x (flat_map defs (firstn (Datatypes.S i) l))).
+        assert (Hpre' : Forall (reads_none Fs) (firstn (Datatypes.S i) l)).
+        { rewrite Hfs. apply Forall_app. split; [exact Hpre|]. constructor; [apply HreadsS, HlastIn | constructor]. }
+        assert (Hdp' : forall x, In x Fs -> ~ In x (flat_map defs (firstn (Datatypes.S i) l))).
         { intros x Hx Hin. rewrite Hfs, flat_map_app in Hin. apply in_app_or in Hin. destruct Hin as [Hin|Hin].
-          - apply in_flat_map in Hin. destruct Hin as [st [Hst Hd]]. apply (Hdefs st (Hsub1 st Hst) x Hx Hd).
-          - cbn in Hin. destruct Hin as [E|[]]. subst x. apply H2, Hx. }
-        exact (core_ungrouped fi Hp ode Hode F (firstn (Datatypes.S i) l) (skipn (Datatypes.S i) l) P EFF (a_op a)
-                 (applied_template T a) (doc_effect_closed a) r1 r Hr1 HEF H2 Hpre' Hpost Hdp Ht).
+          - apply (Hdp x Hx Hin).
+          - cbn in Hin. destruct Hin as [E|[]]. subst x. apply H2, HnamesF, Hx. }
+        exact (core_ungrouped fi Hp ode Hode Fs (firstn (Datatypes.S i) l) (skipn (Datatypes.S i) l) P EFF (a_op a)
+                 (applied_template T a) (doc_effect_closed a) r1 r Hr1 HPF Hpre' Hpost Hdp' Ht).
   Qed.
 End Surgery.
 
@@ -573,26 +606,29 @@ Theorem add_covariate_effect_sound_guarded fi ode T a l lm ls r :
 Proof.
   intros Hp Hode HT G Hm Hs.
   unfold g_surgery in G.
-  apply andb_true_iff in G as [G K11]. apply andb_true_iff in G as [G K10]. apply andb_true_iff in G as [G K9].
-  apply andb_true_iff in G as [G K8]. apply andb_true_iff in G as [G K7]. apply andb_true_iff in G as [G K6].
-  apply andb_true_iff in G as [G K5]. apply andb_true_iff in G as [G K4]. apply andb_true_iff in G as [G K3].
-  apply andb_true_iff in G as [G K2].
-  rewrite forallb_forall in G, K4, K7, K8, K9, K10.
+  apply andb_true_iff in G as [G K13]. apply andb_true_iff in G as [G K12]. apply andb_true_iff in G as [G K11].
+  apply andb_true_iff in G as [G K10]. apply andb_true_iff in G as [G K9]. apply andb_true_iff in G as [G K8].
+  apply andb_true_iff in G as [G K7]. apply andb_true_iff in G as [G K6]. apply andb_true_iff in G as [G K5].
+  apply andb_true_iff in G as [G K4]. apply andb_true_iff in G as [G K3]. apply andb_true_iff in G as [G K2].
+  rewrite forallb_forall in G, K6, K9, K10, K11, K12.
   apply (add_covariate_effect_sound_lemma fi Hp ode Hode T a l lm ls r HT).
   - intros x Hx. specialize (G x Hx). apply andb_true_iff in G as [A B]. split; apply negb_memp; assumption.
   - apply negb_memp; assumption.
+  - intros i Hi. rewrite Hi in K3. apply andb_true_iff in K3 as [A B]. split; [apply negb_memp; exact A|].
+    apply orb_true_iff in B as [B|B]; [left; exact B | right; apply negb_memp; exact B].
+  - apply negb_memp; assumption.
   - apply nodupb_NoDup; assumption.
-  - intros nm Hn. apply negb_memp, K4, Hn.
+  - intros nm Hn. apply negb_memp, K6, Hn.
   - apply negb_memp; assumption.
   - apply negb_memp; assumption.
-  - intros p Hin. specialize (K7 p Hin).
-    apply andb_true_iff in K7 as [K7 C]. apply andb_true_iff in K7 as [A B].
+  - intros p Hin. specialize (K9 p Hin).
+    apply andb_true_iff in K9 as [K9 C]. apply andb_true_iff in K9 as [A B].
     repeat split; try (apply negb_memp; assumption).
     apply Pos.eqb_neq. apply negb_true_iff in C. exact C.
-  - intros y Hy. apply negb_memp, K8, Hy.
-  - intros x Hx. apply negb_memp, K9, Hx.
-  - intros [[ts nm] v] Hst Hin. specialize (K10 _ Hst). cbv beta zeta in K10. cbn [fst snd] in *.
-    apply memp_In in Hin. rewrite Hin in K10. exact K10.
+  - intros y Hy. apply negb_memp, K10, Hy.
+  - intros x Hx. apply negb_memp, K11, Hx.
+  - intros [[ts nm] v] Hst Hin. specialize (K12 _ Hst). cbv beta zeta in K12. cbn [fst snd] in *.
+    apply memp_In in Hin. rewrite Hin in K12. exact K12.
   - apply negb_memp; assumption.
   - exact Hm.
   - exact Hs.
